@@ -48,13 +48,25 @@ fn complement(input: u8, bits: u8) -> u8 {
     }
 }
 
+/// Number of 8-pixel tiles walked along one side: the largest power of two that does not
+/// exceed the number of tiles the side needs (at least one). Integer arithmetic only: the
+/// precision of `f64::log2` is unspecified, so `log2(2.0) as usize` is not 1 on every platform.
+fn tile_count(side: usize) -> usize {
+    let tiles = side / 8 + (side % 8 != 0) as usize;
+    if tiles == 0 {
+        1
+    } else {
+        1 << (usize::BITS - 1 - tiles.leading_zeros())
+    }
+}
+
 pub fn decode(pixel_data: &[u8], width: usize, height: usize, with_alpha: bool) -> Result<Vec<u8>> {
     let mut bmp: Vec<u8> = Vec::new();
     bmp.resize(4 * width * height, 0);
     let modifiers = get_etc_modifiers_table();
 
-    let tile_width: usize = 1 << (((width as f64) / 8.0).ceil().log2() as usize);
-    let tile_height: usize = 1 << (((height as f64) / 8.0).ceil().log2() as usize);
+    let tile_width = tile_count(width);
+    let tile_height = tile_count(height);
     let mut pos = 0;
     for tile_y in 0..tile_height {
         for tile_x in 0..tile_width {
